@@ -1,15 +1,22 @@
 #!/usr/bin/env python3
 """C10 — gradient-based optimisers report consistent solutions and make progress.
 
-  proofs           Properties_C10.v (state consistency of every AbstractLineSearchOptimizer-derived class with
-                   backtracking and of SteepestDescent, backtracking monotone, whole-run monotonicity for non-ascent
-                   direction rules, box feasibility for direction rules with x + d feasible, save/restore completeness
-                   of the line-search base + CG, repaired SteepestDescent list), axiom-free over Q
+  proofs           Properties_C10.v (state consistency of every AbstractLineSearchOptimizer-derived class with ALL THREE
+                   line searches - wolfecubic and dlinmin with their trial step lengths as an arbitrary oracle - and of
+                   SteepestDescent; no line search increases the value along a non-ascent direction; points stay on the
+                   search line / ray; exactly when wolfecubic reads unassigned memory; BFGS: the update keeps symmetry and
+                   (y's > 0) positive definiteness, reset as coded, descent direction and monotone steps without hypothesis;
+                   whole-run monotonicity for non-ascent direction rules, box feasibility for direction rules with x + d
+                   feasible, save/restore completeness of the line-search base + CG + BFGS, repaired SteepestDescent list),
+                   axiom-free over Q
   correspondence   extracted Q-model vs the real code compiled from /repo on generated dyadic quadratics: exact
                    equality while every floating-point operation of the objective was exact (harness: FE_INEXACT +
                    mantissa-length watch), 1e-9 relative afterwards.  Classes: harness subclass of
-                   AbstractLineSearchOptimizer (direction -gradient), CG, first step of BFGS/L-BFGS (also with box:
-                   feasibility halving of init), SteepestDescent; save/restore inside the histories.
+                   AbstractLineSearchOptimizer (direction -gradient), CG, BFGS (matrix included, 2-3 steps), first step of
+                   L-BFGS (also with box: feasibility halving of init, forced backtracking), SteepestDescent; save/restore
+                   inside the histories.  Single LineSearch::operator() calls (Dlinmin / WolfeCubic / Backtracking) on a
+                   hooked hash-valued objective: the code runs first, its evaluation log becomes the oracle of the
+                   extracted model, point / value / derivative and the number of trials must agree exactly.
   spec monitors    every anchored class (SteepestDescent, Adam, CG, BFGS, L-BFGS, Rprop variants; line searches
                    Dlinmin/WolfeCubic/Backtracking; quadratics cond <= 1e4, Rosenbrock, box variants for L-BFGS and
                    Rprop): value == re-evaluated objective and derivative == re-evaluated gradient (bitwise), finite, feasible, line-search methods never
@@ -136,7 +143,7 @@ def gen_exact(rng):
     params = ()
     if opt == "SD": params = (rng.choice([Fraction(1, 8), Fraction(1, 4), Fraction(1, 16), Fraction(1, 32)]), rng.choice([Fraction(0), Fraction(1, 2), Fraction(1, 4)]))
     if opt == "LBFGS": params = (rng.choice([1, 2, 5]),)
-    hd = header(opt, 2, "boxquad" if box else "quad", n, [v for r_ in A for v in r_], b, x0, params, lower, upper)
+    hd = header(opt, rng.choice([0, 1, 2]) if box else 2, "boxquad" if box else "quad", n, [v for r_ in A for v in r_], b, x0, params, lower, upper)
     k = rng.randint(2, 7)
     if opt == "CG": k = min(k, 5 if n <= 2 else 4 if n == 3 else 3)      # the exact rationals of the model square in size with every beta
     if opt == "BFGS": k = min(k, 3 if n <= 2 else 2)                      # ... and with every update of the inverse Hessian (two updates: the second one starts from a non-identity matrix)
@@ -329,8 +336,8 @@ def compare(case, mo, io, stats):
             if degenerate and k not in ("pt", "val", "der"): continue
             if not stepped and k in ("lpt", "lder", "lval"): continue      # left uninitialised by init()
             if k not in db: return "line %d: implementation prints no %s" % (idx, k)
-            if k == "cnt":
-                if va != db[k]: return "line %d: CG counter model %s, implementation %s" % (idx, va, db[k])
+            if k in ("cnt", "lstype"):
+                if va != db[k]: return "line %d: %s model %s, implementation %s" % (idx, "CG counter" if k == "cnt" else "line-search type", va, db[k])
                 continue
             xa = [qfrac(t) for t in va.split(",")] if va else []
             xb = fvec(db[k])
@@ -459,9 +466,14 @@ def main():
     ck.trusted = DEFAULT_TRUSTED + [
         "harness/c10_opt.cpp: objective functions (quadratic, Rosenbrock, box variants via BoxConstraintHandler), a 4-line subclass of AbstractLineSearchOptimizer with direction -gradient, read access to protected members through pointers to members",
         "exact-regime detection: FE_INEXACT around every objective evaluation + at most 40 significant bits in every printed state number; the one always-inexact library operation (c1*t*gtd in the Armijo test, c1 = 1e-4) can only matter when the decrease equals 1e-4 of the linear prediction to 1e-16",
-        "modelled not verified: Dlinmin, WolfeCubic, BFGS/L-BFGS direction rules (incl. the box dog-leg), Adam, Rprop (monitored only)",
+        "not modelled: the numerics of Dlinmin / WolfeCubic (interpolation, Brent and golden-section steps are an oracle replayed from the code's evaluation log), the L-BFGS direction rule (incl. the box dog-leg), Adam, Rprop (monitored only)",
+        "hooked objective of the single line-search calls: value/gradient = hash of the bit patterns of the evaluated point, implemented twice (harness/c10_opt.cpp struct Hooked, ocaml/c10_driver.ml hooked); points are 0 + t*d with d[i] = +-2^k, hence computed without rounding; the step length of an evaluation is read as x[j]/d[j]",
+        "rounded comparisons of the library with an always-inexact product (c1*t*gtd, c2*gtd) are recomputed in Python in floating point and exactly; calls where the two disagree are skipped (counted under rounding-sensitive)",
+        "stack-content dependence is exposed by running every single line-search call twice after filling 64 KiB of stack with 0xFF bytes resp. the double -1e300",
         "exact rational linear solve in Python for the minimiser of the quadratics"]
     ck.assumptions = [
+        "single line-search calls: n <= 4, directions with entries 0, +-1/2, +-1, +-2, 4, start 0 in the moving coordinates, t0 in {0, 1/64, 1/8, 1/4, 1/2, 1, 2}, objective = hash (values k/16 in [-8, 8), gradient entries k/8 in [-4, 4)) or -slope*t up to a threshold <= 1e7 and the hash beyond; 20% of the calls start from a value / derivative that is not the objective's",
+        "harness/c10_findings.txt: recorded inputs of reported defects that are neither repaired nor registered in known_findings.json are run and printed as PENDING-FINDING on every run without failing it (the lead decides); once registered they are reported as KNOWN-FINDING",
         "objectives from the generated family: strictly convex quadratics 0.5x'Ax-b'x (n <= 6, condition <= 1e4; dyadic entries n <= 4 for the exact comparison), Rosenbrock-type sum p(x[i+1]-x[i]^2)^2+(1-x[i])^2 with p in {1,10,100}, box-constrained variants (BoxConstraintHandler, start inside or on the boundary)",
         "box-constrained objectives only with the optimizers that announce CAN_SOLVE_CONSTRAINED (LBFGS, Rprop); the others reject them in checkFeatures",
         "SteepestDescent learning rate <= 0.9/lambda_max (otherwise plain gradient descent diverges by design); Adam eta <= 0.1",
@@ -505,7 +517,9 @@ def main():
     # step lengths (the oracle of the model) are read back from the evaluation log of the hooked objective
     def run_ls(lines, tag):
         io_ = run_cases(exe, [[l] for l in lines], os.path.join(tmpd, tag + "_impl.txt"), timeout=3000)
-        ml = [ls_model_line(l, o[0][0]) if (o[0] and " log=" in o[0][0]) else "?" for l, o in zip(lines, io_)]
+        # nf=1: the code evaluated a non-finite point (NaN step length from the 0/0 of wlsCubicInterp on equal values with
+        # opposite slopes): no rational oracle exists, the call is counted under "nonfinite"
+        ml = [ls_model_line(l, o[0][0]) if (o[0] and " log=" in o[0][0] and " nf=0" in o[0][0]) else "?" for l, o in zip(lines, io_)]
         mo_ = run_cases(model, [[l] for l in ml], os.path.join(tmpd, tag + "_model.txt"))
         res = []
         for l, o, m, mline in zip(lines, io_, mo_, ml):
@@ -616,7 +630,7 @@ def main():
             for _ in range(40):
                 g = gen_exact(rng); t = hd.split(" ", 4)
                 for o2 in (["CG", "BFGS", "LBFGS", "SDLS"] if "box" not in hd else [t[1]]):
-                    ops = g[1:] if o2 != "CG" else g[1:4]      # the model's rationals square in size with every CG beta
+                    ops = g[1:] if o2 not in ("CG", "BFGS") else g[1:4] if o2 == "CG" else g[1:3]      # the model's rationals square in size with every CG beta / BFGS update
                     extra.append([" ".join([t[0], o2] + t[2:])] + ops + ["R 30"])
         emo, eio = run_both(extra, "search")
         found = False
